@@ -345,3 +345,16 @@ PLAN_C06 = dict(
             'every handler step is one database commit, so a Crash action between any two actions of a history is a crash at every commit boundary; RestartCrash(k) places a crash after the k-th commit of the catch-up'],
 )
 PROPS['C06'] = plan_check(PLAN_C06)
+
+
+# ------------------------------------------------------------------ plug-in checks
+# bin/p_<ID>.py (or p_<name>.py listing several ids in IDS) exposes check(pid, tier, scratch, replay) -> exit code
+def _load_plugins():
+    import importlib
+    for f in sorted(glob.glob(os.path.join(os.path.dirname(os.path.abspath(__file__)), 'p_*.py'))):
+        m = importlib.import_module(os.path.basename(f)[:-3])
+        for pid in getattr(m, 'IDS', []):
+            PROPS[pid] = m.check
+
+
+_load_plugins()
